@@ -15,20 +15,21 @@ P = gen.P
 
 # ------------------------------------------------------------------ workloads
 
-def api_variants(p, o, api, fin, cb, probe):
+def api_variants(p, o, api, fin, cb, probe, both=False):
     """"mixed" = every symbol but one goes through of_set_available_symbols, the last one arrives afterwards: once the
     highest and once the lowest ESI of the set (the table may then already hold k symbols or more)"""
     if api != "mixed":
-        return [gen.decode_exec(p, o, api=api, finish=fin, cb=cb, probe=probe)]
+        return [gen.decode_exec(p, o, api=api, finish=fin, cb=cb, probe=probe, both=both)]
     if not o:
         return []
     srt = sorted(o)
-    return [gen.decode_exec(p, oo, api="mixed", finish=fin, cb=cb, probe=probe, mixed_cut=len(oo) - 1)
+    return [gen.decode_exec(p, oo, api="mixed", finish=fin, cb=cb, probe=probe, mixed_cut=len(oo) - 1, both=both)
             for oo in (srt, list(reversed(srt)))]
 
 
 def ldpc_exhaustive(pts, rng, apis=("recv",), finish=(True,), cbs=(None,), orders=1, probe="each", maxsub=None):
     execs = []
+    idx = 0
     for p in pts:
         subs = list(gen.all_subsets(p.n))
         if maxsub and len(subs) > maxsub:
@@ -39,12 +40,16 @@ def ldpc_exhaustive(pts, rng, apis=("recv",), finish=(True,), cbs=(None,), order
                 for api in apis:
                     for fin in finish:
                         for cb in cbs:
-                            execs += api_variants(p, o, api, fin, cb, probe)
+                            # every fourth execution on an OF_ENCODER_AND_DECODER instance (a receiver of that type must
+                            # behave like a plain decoder on every received set, not only on the random ones)
+                            idx += 1
+                            execs += api_variants(p, o, api, fin, cb, probe, both=(idx % 4 == 3))
     return execs
 
 
 def rs_exhaustive(pts, rng, apis=("recv",), cbs=(None,), orders=1, probe="each", maxsub=None, finish=(True,)):
     execs = []
+    idx = 0
     for p in pts:
         subs = list(gen.all_subsets(p.n))
         if maxsub and len(subs) > maxsub:
@@ -54,7 +59,8 @@ def rs_exhaustive(pts, rng, apis=("recv",), cbs=(None,), orders=1, probe="each",
                 for api in apis:
                     for cb in cbs:
                         for fin in finish:
-                            execs += api_variants(p, o, api, fin, cb, probe)
+                            idx += 1
+                            execs += api_variants(p, o, api, fin, cb, probe, both=(idx % 4 == 3))
     return execs
 
 
